@@ -357,6 +357,23 @@ mod verif_block_leaves_ip {
         }
     }}
 
+    //@harness bl_ip_der_family_bits Kb fn=AddressRange::parse_content_with_family bound="first BIT STRING a /8, second a /8 or a /4 (4 unused bits), octet values and family unrestricted" timeout=900
+    verif_harness!{ #[kani::unwind(18)] bl_ip_der_family_bits; |a: u8, b: u8, short_max: bool, v4: bool| {
+        // decoding is exact: accepted exactly when the expanded range is not inverted, with the expanded bounds
+        // (fully symbolic unused-bit counts exhaust CBMC's memory: the first prefix is a /8, the second a /8 or a /4)
+        let ua: u8 = 0; let ub: u8 = if short_max { 4 } else { 0 };
+        assume(a & ((1u8 << ua) - 1) == 0 && b & ((1u8 << ub) - 1) == 0);   // DER: unused bits are zero
+        let buf = [0x30u8, 8, 3, 2, ua, a, 3, 2, ub, b];
+        let fam = if v4 { AddressFamily::Ipv4 } else { AddressFamily::Ipv6 };
+        let r = bcder::Mode::Der.decode(&buf[..], |cons| cons.take_value_if(Tag::SEQUENCE, |c| AddressRange::parse_content_with_family(c, fam)));
+        let lo = (a as u128) << 120;
+        let hi = ((b as u128) << 120) | hostmask(8 - ub);
+        assert!(r.is_ok() == (lo <= hi), "a range is accepted exactly when min (zero-filled) <= max (one-filled)");
+        if let Ok(blk) = r {
+            assert!(val(blk.min()) == lo && val(blk.max()) == hi, "decoded bounds are the zero-filled / one-filled addresses");
+        }
+    }}
+
     // Text form (AddressRange::from_str_sep / from_v4_str_sep / from_v6_str_sep): no harness — std's IpAddr::from_str
     // on symbolic octets does not finish in CBMC (timeout in symbolic execution even for "9.0.0.0-d.0.0.0").  The same
     // missing min <= max check is reproduced natively: "10.0.0.9-10.0.0.1" and "2001:db8::9-2001:db8::1" parse to inverted ranges.
